@@ -5,7 +5,7 @@ fn main() {
     let key = ThreadKey::get().unwrap();
     let p = Poisonable::new(Mutex::new(0));
     let g = p.lock(key).unwrap();
-    let k = g.key; //~ ERROR E0616
+    let k = g.@{field:PoisonGuard~ThreadKey}; //~ ERROR E0616
     //~ TWIN: let k = Poisonable::<Mutex<i32>>::unlock(g);
     drop(k);
 }
